@@ -1599,8 +1599,14 @@ def _make_gin_wrapper(fn, fn_or_cls, name, selector, allowlist, denylist):
     # details on the dark magic happening here.
     new_kwargs = copy.deepcopy(new_kwargs)
 
+    # A parameter whose binding is still `%gin.REQUIRED` has no value yet.
+    missing_required_params = [
+        arg_name for arg_name, value in new_kwargs.items() if value is REQUIRED
+    ]
+    for arg_name in missing_required_params:
+      del new_kwargs[arg_name]
+
     # Validate args marked as REQUIRED have been bound in the Gin config.
-    missing_required_params = []
     new_args = list(args)
     for i, arg_name in zip(required_arg_indexes, required_arg_names):
       if arg_name not in new_kwargs:
@@ -1622,8 +1628,8 @@ def _make_gin_wrapper(fn, fn_or_cls, name, selector, allowlist, denylist):
         kwargs.pop(required_kwarg)
 
     if missing_required_params:
-      missing_required_params = (
-          _order_by_signature(signature_fn, missing_required_params))
+      missing_required_params = _order_by_signature(
+          signature_fn, list(dict.fromkeys(missing_required_params)))
       err_str = 'Required bindings for `{}` not provided in config: {}'
       minimal_selector = _REGISTRY.minimal_selector(current_selector)
       err_str = err_str.format(minimal_selector, missing_required_params)
